@@ -89,29 +89,19 @@ theorem L_linComb {n : Nat} {L : List ℝ → ℝ} (hL : LinearOn n L) :
       rw [hL.add _ _ (by rw [length_smul]; exact h1) (linComb_length n rest hr), hL.smul a v h1,
         L_linComb hL rest hr]
 
-/-- **a linear functional annihilated by the right-hand side is preserved by the step** -/
-theorem linear_invariant_step {n : Nat} {L : List ℝ → ℝ} (hL : LinearOn n L) (L0 : ℝ)
-    (states rhs : List (ℝ × List ℝ))
-    (hs : ∀ t ∈ states, t.2.length = n ∧ L t.2 = L0)
-    (hr : ∀ t ∈ rhs, t.2.length = n ∧ L t.2 = 0)
-    (hsum : (states.map (fun t => t.1)).sum = 1) :
-    L (integratorStep n states rhs) = L0 := by
+theorem integratorStep_length (n : Nat) (states rhs : List (ℝ × List ℝ))
+    (hs : ∀ t ∈ states, t.2.length = n) (hr : ∀ t ∈ rhs, t.2.length = n) :
+    (integratorStep n states rhs).length = n := by
   unfold integratorStep
-  rw [hL.add _ _ (linComb_length n states (fun t ht => (hs t ht).1))
-        (linComb_length n rhs (fun t ht => (hr t ht).1)),
-      L_linComb hL states (fun t ht => (hs t ht).1), L_linComb hL rhs (fun t ht => (hr t ht).1)]
-  have h1 : (states.map (fun t => t.1 * L t.2)).sum = L0 := by
-    have : states.map (fun t => t.1 * L t.2) = states.map (fun t => L0 * t.1) := by
-      apply List.map_congr_left
-      intro t ht
-      rw [(hs t ht).2]; ring
-    rw [this, List.sum_map_mul_left, hsum]; ring
-  have h2 : (rhs.map (fun t => t.1 * L t.2)).sum = 0 := by
-    apply List.sum_eq_zero
-    intro x hx
-    obtain ⟨t, ht, rfl⟩ := List.mem_map.mp hx
-    rw [(hr t ht).2]; ring
-  rw [h1, h2]; ring
+  rw [length_vadd, linComb_length n states hs, linComb_length n rhs hr]; simp
+
+/-- the solver's own sequence of states `y_0, y_1, …` (it never sees the corrected copies that are stored): every
+    new state is an affine step over EARLIER solver states and right-hand sides satisfying `Ann` -/
+inductive SolverRun (n : Nat) (Ann : List ℝ → Prop) (y0 : List ℝ) : List (List ℝ) → Prop
+  | init : y0.length = n → SolverRun n Ann y0 [y0]
+  | step (ys : List (List ℝ)) (states rhs : List (ℝ × List ℝ)) :
+      SolverRun n Ann y0 ys → (∀ t ∈ states, t.2 ∈ ys) → (∀ t ∈ rhs, t.2.length = n ∧ Ann t.2) →
+      (states.map (fun t => t.1)).sum = 1 → SolverRun n Ann y0 (ys ++ [integratorStep n states rhs])
 
 /-! ### the read-out functionals are linear and depend on the shape of the particle list only -/
 
@@ -128,6 +118,26 @@ theorem compoundTotal_shape (c : Nat) : ∀ (ps ps' : List (Particle ℝ)) (v : 
       obtain ⟨⟨h1, h2⟩, h3⟩ := h
       simp only [compoundTotal, h1, h2]
       rw [compoundTotal_shape c ps ps' _ h3]
+
+theorem slotsLen_shape : ∀ (a b : List (Particle ℝ)), shape a = shape b → slotsLen a = slotsLen b
+  | [], [], _ => rfl
+  | [], _ :: _, h => by simp [shape] at h
+  | _ :: _, [], h => by simp [shape] at h
+  | p :: ps, q :: qs, h => by
+      simp only [shape, List.map_cons, List.cons.injEq, Prod.mk.injEq] at h
+      simp only [slotsLen, h.1.2]
+      rw [slotsLen_shape ps qs h.2]
+
+theorem soluble_lt_shape (c : Nat) : ∀ (a b : List (Particle ℝ)), shape a = shape b →
+    (∀ p ∈ b, p.issoluble = true → c < p.nc) → ∀ p ∈ a, p.issoluble = true → c < p.nc
+  | [], _, _, _ => by intro p hp; simp at hp
+  | _ :: _, [], h, _ => by simp [shape] at h
+  | p :: ps, q :: qs, h, hc => by
+      simp only [shape, List.map_cons, List.cons.injEq, Prod.mk.injEq] at h
+      intro x hx
+      rcases List.mem_cons.mp hx with rfl | hx'
+      · intro hsol; rw [h.1.2]; exact hc q (by simp) (by rw [← h.1.1]; exact hsol)
+      · exact soluble_lt_shape c ps qs h.2 (fun y hy => hc y (by simp [hy])) x hx'
 
 theorem compoundTotal_add (c : Nat) : ∀ (ps : List (Particle ℝ)) (v w : List ℝ), v.length = w.length →
     compoundTotal c ps (Num.vadd v w) = compoundTotal c ps v + compoundTotal c ps w
@@ -445,6 +455,72 @@ theorem loop_good (cap : Nat) (succ : Nat → Bool) (obs : Nat → Obs α) :
           exact loop_good cap succ obs fuel _ (by rw [stepControl_k]; omega) hfuel
       · simp only [hs]
         exact ⟨by simpa using hs, by omega⟩
+
+
+theorem ctlAt_k (cap : Nat) (obs : Nat → Obs α) : ∀ k, (ctlAt cap obs k).k = k
+  | 0 => rfl
+  | k+1 => by simp only [ctlAt, stepControl_k, ctlAt_k cap obs k]
+
+/-- what the loop returns when started in pass `j0` with the counters of pass `j0` -/
+def LoopSpec (cap : Nat) (succ : Nat → Bool) (obs : Nat → Obs α) (j0 : Nat) : Outcome → Prop
+  | .stopped c r => ∃ j, j0 ≤ j ∧ c = ctlAt cap obs (j + 1) ∧ r = testsAt cap obs j ∧ r.any = true ∧ succ j = true ∧
+      ∀ i, j0 ≤ i → i < j → succ i = true ∧ (testsAt cap obs i).any = false
+  | .failed c => ∃ j, j0 ≤ j ∧ c = ctlAt cap obs j ∧ succ j = false ∧
+      ∀ i, j0 ≤ i → i < j → succ i = true ∧ (testsAt cap obs i).any = false
+  | .outOfFuel _ => True
+
+theorem loop_spec (cap : Nat) (succ : Nat → Bool) (obs : Nat → Obs α) :
+    ∀ (fuel j0 : Nat), LoopSpec cap succ obs j0 (loop cap succ obs fuel (ctlAt cap obs j0))
+  | 0, _ => by simp [loop, LoopSpec]
+  | fuel+1, j0 => by
+      unfold loop
+      rw [ctlAt_k]
+      by_cases hs : succ j0 = true
+      · simp only [hs, if_true]
+        by_cases hr : (stepControl cap (ctlAt cap obs j0) (obs j0)).2.any = true
+        · simp only [hr, if_true]
+          exact ⟨j0, le_refl _, rfl, rfl, hr, hs, fun i h1 h2 => by omega⟩
+        · simp only [hr]
+          have ih := loop_spec cap succ obs fuel (j0 + 1)
+          have hc : (stepControl cap (ctlAt cap obs j0) (obs j0)).1 = ctlAt cap obs (j0 + 1) := rfl
+          rw [hc]
+          generalize loop cap succ obs fuel (ctlAt cap obs (j0 + 1)) = out at ih
+          have hfalse : (testsAt cap obs j0).any = false := by
+            unfold testsAt; simpa using hr
+          cases out with
+          | stopped c r =>
+            obtain ⟨j, hj, h1, h2, h3, h4, h5⟩ := ih
+            refine ⟨j, by omega, h1, h2, h3, h4, ?_⟩
+            intro i hi1 hi2
+            by_cases hij : i = j0
+            · subst hij; exact ⟨hs, hfalse⟩
+            · exact h5 i (by omega) hi2
+          | failed c =>
+            obtain ⟨j, hj, h1, h2, h5⟩ := ih
+            refine ⟨j, by omega, h1, h2, ?_⟩
+            intro i hi1 hi2
+            by_cases hij : i = j0
+            · subst hij; exact ⟨hs, hfalse⟩
+            · exact h5 i (by omega) hi2
+          | outOfFuel c => trivial
+      · simp only [hs]
+        exact ⟨j0, le_refl _, rfl, by simpa using hs, fun i h1 h2 => by omega⟩
+
+/-- right-hand sides of a compound-free, biodegradation-free configuration with the particle shape `ps` -/
+def CleanRhs (c : Nat) (ps : List (Particle ℝ)) (f : List ℝ) : Prop :=
+  ∃ (e : Env ℝ) (ps' : List (Particle ℝ)), f = derivs e ps' ∧ shape ps' = shape ps ∧ WfE e ∧ Wf e ps' ∧ c < e.nchems ∧
+    e.ca_chems.getD c 0 = 0 ∧ e.k_bio.getD c 0 = 0 ∧ ∀ p ∈ ps', p.k_bio.getD c 0 = 0
+
+/-- DEFINITIONAL read-back of `stepControl`: what each reported reason means (the five tests of l.300-315, and the two counters) -/
+theorem stop_tests {α : Type} [Num α] (cap : Nat) (c : Ctl) (o : Obs α) :
+    let r := (stepControl cap c o).2
+    let c' := (stepControl cap c o).1
+    (r.distance = true ↔ o.sdMax < o.s / o.D) ∧ (r.cap = true ↔ cap ≤ c.k) ∧ (r.surface = true ↔ o.z ≤ 0) ∧
+    (r.stall = true ↔ (o.s ≤ o.sPrev ∧ o.sPrev ≤ o.s)) ∧ (r.neutral = true ↔ 1 ≤ c'.neutral) ∧
+    c'.k = c.k + 1 ∧
+    c'.top = (if signDiffers o.Jz0 o.Jz1 then c.top + 1 else c.top) ∧
+    c'.neutral = (if 0 < c'.top then (if signDiffers o.dr0 o.dr1 then c.neutral + 1 else c.neutral) else c.neutral) := by
+  simp [stepControl]
 
 /-! ### example state for the non-vacuity examples of Props/C04 -/
 
